@@ -78,6 +78,8 @@ func (ex *Exec) dispatch(fr *Frame, st *State, cc *ssa.CallCommon, fnv Value, ar
 			}
 		}
 	}
+	// leaf locks: no call that may take a lock or reach unknown code while held
+	ex.checkLeafLocks(fr, st, cc, fn, name, pos)
 	// site assertions of the function under verification
 	ex.siteHooks(fr, st, instr, name, args, fn, cc, true)
 	var res Value
@@ -672,6 +674,73 @@ func (ex *Exec) monitorRelease(st *State, l *Term) {
 			label = fmt.Sprintf("%d", i+1)
 		}
 		ex.oblige("monitor-inv@unlock", md.TypeName+":"+label, pos, md.Props, st, c)
+	}
+}
+
+// checkLeafLocks: a lock declared `leaflock T.f` is innermost in the lock
+// order. While it is held, the function may not call anything that may take
+// another lock or whose code is unknown (interface methods, function values,
+// in-package functions that reach a lock operation): such a call can block on
+// or re-enter the leaf lock's holders and deadlock.
+func (ex *Exec) checkLeafLocks(fr *Frame, st *State, cc *ssa.CallCommon, fn *ssa.Function, name string, pos token.Pos) {
+	leafs := ex.prog.Contracts.LeafLocks
+	if len(leafs) == 0 {
+		return
+	}
+	if _, isBuiltin := cc.Value.(*ssa.Builtin); isBuiltin && !cc.IsInvoke() {
+		return
+	}
+	risky := false
+	switch {
+	case cc.IsInvoke():
+		if len(ex.prog.Pre.Impls[cc.Method.Name()]) == 0 {
+			// no loaded package implements a method of that name: the
+			// object behind the interface belongs to a dependency
+			// (clock, random number generator, ...), assumed not to call
+			// back into the packages under verification
+			risky = false
+		} else {
+			risky = false
+			for _, impl := range ex.prog.Pre.Impls[cc.Method.Name()] {
+				if sigKey(impl.Signature) == sigKey(cc.Method.Type().(*types.Signature)) && ex.prog.Pre.LockTouch[impl] {
+					risky = true
+				}
+			}
+		}
+	case fn == nil:
+		risky = true // function value
+	case ex.isTargetFn(fn):
+		risky = ex.prog.Pre.LockTouch[fn]
+		if fc, ok := ex.prog.Contracts.Funcs[name]; ok && len(fc.LockFx) > 0 {
+			risky = true
+		}
+	default:
+		// a function of another package with a contract that has a lock
+		// effect (sync.Mutex.Lock, ...) is a lock operation itself, checked
+		// by the deadlock obligations; others are assumed not to call back
+		risky = false
+	}
+	if !risky {
+		return
+	}
+	ts := ex.ts
+	held := ex.heapGet(st, "G:held", SArray(SInt, SInt))
+	rheld := ex.heapGet(st, "G:rheld", SArray(SInt, SInt))
+	seen := map[*Term]bool{}
+	for _, l := range append(append([]*Term{}, ex.lockTerms...), ex.rlockTerms...) {
+		if seen[l] {
+			continue
+		}
+		seen[l] = true
+		key := ex.lockName(l)
+		if _, isLeaf := leafs[key]; !isLeaf {
+			continue
+		}
+		cond := ts.And(ts.Le(ts.Select(held, l), ts.Int(0)), ts.Le(ts.Select(rheld, l), ts.Int(0)))
+		if cond.IsTrue() {
+			continue
+		}
+		ex.oblige("leaflock@call", shortCallee(name)+":"+key, pos, []string{"C14"}, st, cond)
 	}
 }
 
